@@ -106,6 +106,15 @@ func (c *Ctx) Shard() {
 	w.progress(idx, c.prefix)
 }
 
+// SetCrashClass names the shape of the current case; if the worker process dies while the
+// case runs, the crash is reported under class "crash:<shape>:<panic fingerprint>".
+func (c *Ctx) SetCrashClass(shape string) {
+	if c.replay {
+		return
+	}
+	c.w.progressClass(shape)
+}
+
 // Skip abandons this case without counting it (used to discard redundant enumerations).
 func (c *Ctx) Skip() { panic(abortCase{}) }
 
